@@ -50,6 +50,7 @@ fn check_cfg(s: &mut Stats, cfg: &Cfg, cases: &[Case]) {
     for c in cases {
         let sock = ScriptSock::new("127.0.0.1:9".parse().unwrap(), vec![Step::Seg(c.bytes.clone()), Step::Eof]);
         let s2 = sock.clone();
+        let _call = crate::report::enter(&c.bytes);
         let r = std::panic::catch_unwind(std::panic::AssertUnwindSafe(|| parts.serve(Stream::Tcp(TcpStream::Script(s2)))));
         let out = sock.lock().unwrap().out.clone();
         judge(s, "", cfg, c, r.map(|_| out).map_err(|_| ()));
